@@ -15,7 +15,10 @@ def parseClassP (j : Json) : Except String PClass := do
   let methods ← (← getArr j "methods").toList.mapM fun m => do
     let specs ← (← getArr m "specs").toList.mapM fun s => do
       return ({ path := ← strs (← s.getObjVal? "path"), leaf := ← getStr s "leaf" } : PathSpec)
-    return ({ name := ← getStr m "name", specs := specs } : PMethod)
+    let raises ← match getOpt m "raises" with
+      | some r => (← r.getArr?).toList.mapM (·.getNat?)
+      | none => pure []
+    return ({ name := ← getStr m "name", specs := specs, raises := raises } : PMethod)
   return { objParams := ← strs (← j.getObjVal? "objParams"), intParams := ← strs (← j.getObjVal? "intParams"), methods := methods }
 
 def parseStep (j : Json) : Except String Step := do
@@ -54,7 +57,7 @@ def jDyn (w : PWorld) : Json :=
 def jStepOk (w : PWorld) : Json := Json.mkObj [
   ("err", Json.null),
   ("calls", Json.arr (w.log.map fun c => Json.arr #[toJson c.owner, Json.str c.method, Json.arr (c.reads.map jVal).toArray]).toArray),
-  ("watchers", jTables w), ("dyn", jDyn w)]
+  ("watchers", jTables w), ("dyn", jDyn w), ("raised", Json.bool w.raised)]
 
 def parseObsP (j : Json) : Except String (List PStepObs) := do
   (← getArr j "steps").toList.mapM fun s => do
@@ -68,7 +71,7 @@ def parseObsP (j : Json) : Except String (List PStepObs) := do
       let ws ← (← getArr s "watchers").toList.mapM fun x => do
         let q ← x.getArr?
         return ({ on := ← q[0]!.getNat?, param := ← q[1]!.getStr?, owner := ← q[2]!.getNat?, method := ← q[3]!.getStr? } : WObs)
-      return { err := none, calls := calls, watchers := ws }
+      return { err := none, calls := calls, watchers := ws, raised := (getBool s "raised").toOption.getD false }
 
 def handle (req : Json) : Except String Json := do
   let case ← req.getObjVal? "case"
@@ -97,6 +100,7 @@ def handle (req : Json) : Except String Json := do
     (if classes.any (fun c => c.methods.any (fun m => m.specs.any (fun s => s.leaf == "param"))) then ["leaf:param"] else []) ++
     (if mSteps.any (fun s => s.2.err.isSome) then ["step:error"] else []) ++
     (if impl == model then ["json:model-equals-impl"] else ["json:model-differs"]) ++
+    (if mSteps.any (fun s => s.2.raised) then ["step:method-raised"] else []) ++
     (if mSteps.any (fun s => !s.2.calls.isEmpty) then ["fired"] else [])
   return Json.mkObj [("model", model), ("applicable", Json.bool wf),
     ("spec_impl", optJ sImpl), ("spec_model", optJ sModel), ("checked_steps", toJson nImpl),
